@@ -484,7 +484,7 @@ package main
 //@   local P := phString(redactedString, pk, gpk, emailShaped(emailRegex, strOf(v)))
 //@   local CT := b64enc(daeadEnc(mkbytes(elems(encryptionKey), off(encryptionKey), len(encryptionKey)), sbytes(strOf(v)), noBytes))
 //@   ensures key-path-frame: unchangedBelow("Arr:Str")
-//@   ensures string-class-placeholder {C05,C02,C19,C10}: implies(isStr(v), result == v || result == VStr(P) || (enc && result == VStr(CT)))
+//@   ensures string-class-placeholder {C05,C02,C19,C10,C09}: implies(isStr(v), result == v || result == VStr(P) || (enc && result == VStr(CT)))
 //@   ensures string-kept-only-where-allowed {C01,C02,C03,C04,C05,C12,C14,C15,C19}: implies(isStr(v) && result == v, (sel && !named) || polExempt(pk) || (pk == "subType" && gpk == "$binary") || v == VStr(P) || (enc && v == VStr(CT)))
 //@   ensures number-zero-or-kept {C05,C03,C04}: implies(isNum(v), result == v || (redactNumbers && result == VF64(f64_0)))
 //@   ensures number-kept-only-where-allowed {C01,C02,C03,C04,C05,C12,C14,C15,C19}: implies(isNum(v) && result == v, !redactNumbers || (sel && !named) || polExempt(pk) || (pk == "subType" && gpk == "$binary"))
